@@ -36,6 +36,13 @@ static int pd_bit[200], npd;
 static struct sockaddr_storage SRC[NSRC]; static socklen_t SRCLEN[NSRC];
 static const char *SRCN[NSRC] = { "A", "B", "C6" };
 
+/* The responses the harness sends are computed by the implementation's own login_calculate() (what a real client built from
+ * the same sources sends), not by the reference: whether that function follows the documented formula is C19's question; C03
+ * asks whether access depends on answering *this session's* challenge, and must stay sharp when client and server share a
+ * deviation (e.g. a response that ignores part of the challenge makes an old response valid again). */
+void s_login_calculate(char *buf, int buflen, const char *pass, int seed);
+static void impl_login(const unsigned char *pw, uint32_t ch, uint8_t *out) { s_login_calculate((char *)out, 16, (const char *)pw, (int)ch); }
+
 static void addl(int kind, int src, int u, int arg, const char *fmt, ...)
 {
 	letter *l = &LT[nlt++];
@@ -116,6 +123,7 @@ typedef struct model {
 	long lo[NS], hi[NS];
 	unsigned seen[NS];   /* ping/data letters already sent for this slot since the last VACK (repeats are duplicates) */
 	int check_ip;
+	int nv;              /* version requests sent so far (selects the forced challenge) */
 } model;
 static model M;
 static struct tun_user *pristine;      /* users[] as init_users() left it */
@@ -206,21 +214,31 @@ static int apply(int li)
 	unsigned rand_before = W.proc[0].rand_state;
 	adv_clear();
 	switch (L->kind) {
-	case L_V: plen = tm_version(pkt, id, QT, 0x00000502, cmc, DOM); break;
+	case L_V: {
+		/* the challenges the server hands out are forced: each differs from the one before it in one byte only (top byte, low bit,
+		 * second, third byte, ...), so that a response which does not depend on all of the challenge shows up as an accepted replay */
+		static const uint32_t FLIP[6] = { 0x41000000u, 0x00000001u, 0x00000100u, 0x00010000u, 0x3e000000u, 0x000000fau };
+		uint32_t ch = 0x2b5d3f17u;
+		for (int i = 0; i < M.nv; i++) ch ^= FLIP[i % 6];
+		M.nv++;
+		W.proc[0].nrand_forced = 1; W.proc[0].rand_forced[0] = (int)(ch & 0x7fffffffu); W.proc[0].rand_forced_pos = 0;
+		plen = tm_version(pkt, id, QT, 0x00000502, cmc, DOM);
+		break;
+	}
 	case L_VBAD: plen = tm_version(pkt, id, QT, 0x00000501, cmc, DOM); break;
 	case L_LOGIN: {
 		uint8_t h[16];
 		uint32_t ch = 0x31337;
 		if (u < NS && M.alloc[u]) ch = M.cur[u];
 		switch (L->arg) {
-		case HK_CUR: ref_login(pw32, ch, h); break;
-		case HK_PREV: ref_login(pw32, M.prev[u], h); break;
-		case HK_OTHER: ref_login(pw32, M.cur[1 - u], h); break;
-		case HK_PLUS1: ref_login(pw32, ch + 1, h); break;
-		case HK_LASTONLY: { uint8_t r[16]; ref_login(pw32, ch, r); memset(h, 0x5a, 16); h[15] = r[15]; if (h[0] == r[0]) h[0] ^= 1; break; }
-		case HK_FIRSTONLY: { uint8_t r[16]; ref_login(pw32, ch, r); memset(h, 0x5a, 16); h[0] = r[0]; if (h[15] == r[15]) h[15] ^= 1; break; }
-		case HK_ALLBUTLAST: ref_login(pw32, ch, h); h[15] ^= 0x01; break;
-		case HK_ALLBUTFIRST: ref_login(pw32, ch, h); h[0] ^= 0x80; break;
+		case HK_CUR: impl_login(pw32, ch, h); break;
+		case HK_PREV: impl_login(pw32, M.prev[u], h); break;
+		case HK_OTHER: impl_login(pw32, M.cur[1 - u], h); break;
+		case HK_PLUS1: impl_login(pw32, ch + 1, h); break;
+		case HK_LASTONLY: { uint8_t r[16]; impl_login(pw32, ch, r); memset(h, 0x5a, 16); h[15] = r[15]; if (h[0] == r[0]) h[0] ^= 1; break; }
+		case HK_FIRSTONLY: { uint8_t r[16]; impl_login(pw32, ch, r); memset(h, 0x5a, 16); h[0] = r[0]; if (h[15] == r[15]) h[15] ^= 1; break; }
+		case HK_ALLBUTLAST: impl_login(pw32, ch, h); h[15] ^= 0x01; break;
+		case HK_ALLBUTFIRST: impl_login(pw32, ch, h); h[0] ^= 0x80; break;
 		default: memset(h, 0x5a, 16); break;
 		}
 		plen = tm_login(pkt, id, QT, u, h, L->arg == HK_SHORT ? 12 : L->arg == HK_WRONG17 ? 14 : L->arg == HK_WRONG18 ? 15 : 16, cmc, DOM);
@@ -250,9 +268,9 @@ static int apply(int li)
 	case L_RAWLOGIN: {
 		uint8_t h[16];
 		uint32_t ch = (u < NS && M.alloc[u]) ? M.cur[u] : 0x31337;
-		if (L->arg == RK_PLUS1) ref_login(pw32, ch + 1, h); else if (L->arg == RK_PLAIN) ref_login(pw32, ch, h);
-		else if (L->arg == RK_LASTONLY) { uint8_t r[16]; ref_login(pw32, ch + 1, r); memset(h, 0xa5, 16); h[15] = r[15]; }
-		else if (L->arg == RK_ALLBUTLAST) { ref_login(pw32, ch + 1, h); h[15] ^= 0x10; }
+		if (L->arg == RK_PLUS1) impl_login(pw32, ch + 1, h); else if (L->arg == RK_PLAIN) impl_login(pw32, ch, h);
+		else if (L->arg == RK_LASTONLY) { uint8_t r[16]; impl_login(pw32, ch + 1, r); memset(h, 0xa5, 16); h[15] = r[15]; }
+		else if (L->arg == RK_ALLBUTLAST) { impl_login(pw32, ch + 1, h); h[15] ^= 0x10; }
 		else memset(h, 0xa5, 16);
 		plen = tm_raw(pkt, 0x10, u, h, 16);
 		break;
@@ -278,6 +296,7 @@ static int apply(int li)
 	/* settle: a query parked for the 20 ms "send real soon" sweep is answered within this letter */
 	if (vw_alive(0) && W.proc[0].deadline != VW_NEVER && W.proc[0].deadline - W.now <= 20000) vw_run_until(W.proc[0].deadline), vw_run_quiescent(0);
 	if (L->kind != L_V) W.proc[0].rand_state = rand_before;      /* rand() outside 'V' only fills probe answers */
+	W.proc[0].nrand_forced = 0; W.proc[0].rand_forced_pos = 0;      /* a forced challenge the server did not draw is not left behind */
 	xp_count(K_LETTERS, 1);
 	if (!vw_alive(0)) { viol("server-exited", "server loop ended after %s", L->name); return 0; }
 
@@ -338,6 +357,7 @@ static int apply(int li)
 				if (n >= 9 && !memcmp(pl, "VACK", 4)) {
 					int v = pl[8]; uint32_t seed = (pl[4] << 24) | (pl[5] << 16) | (pl[6] << 8) | pl[7];
 					xp_count(K_VACK, 1);
+					if (getenv("AUTH_DEBUG")) dprintf(2, "VACK slot %d seed %08x (prev cur %08x)\n", v, seed, v < NS ? M.cur[v] : 0);
 					if (v < NS) {
 						/* C04 (c): never hand out a slot whose session was active during the last 60 s */
 						if (is04 && M.alloc[v] && !(M.lo[v] + 60 < t_now))
@@ -590,6 +610,7 @@ int main(int argc, char **argv)
 	}
 	hc_quiet();
 	xp_run_jobs(NSTART * nlt, job, a.workers);
+	if (getenv("AUTH_LETTERS")) { for (int i = 0; i < nlt; i++) printf("%d %s\n", i, LT[i].name); return 0; }
 	xp_sample("alphabet of %d letters, e.g. %s | %s | %s | %s | %s", nlt, LT[0].name, LT[3].name, LT[nlt / 2].name, LT[nlt - 4].name, LT[nlt - 1].name);
 	for (int s = 0; s < NSTART; s++) xp_sample("start state %d: %s", s, START_DESC[is04][s]);
 	char extra[500];
